@@ -202,7 +202,14 @@ def instrument_kernels():
             if _KERNEL_LOG is not None:
                 seed = k.get("seed", a[-1] if a else None)
                 ints = [int(x) for x in a if isinstance(x, (int,)) or type(x).__name__ in ("int64", "int32")]
-                _KERNEL_LOG.append({"kind": "kernel", "name": name, "seed": int(seed), "ints": ints})
+                # "args": digest of everything but the seed, taken before the run (the kernels write into `mask`)
+                rest = list(a[:-1]) if "seed" not in k and a else list(a)
+                # (numpy scalars as Python numbers: `shape` may come in as an ndarray, e.g. from `apply_mask`)
+                canon = lambda x: (x.item() if getattr(x, "ndim", 1) == 0 and hasattr(x, "item") else  # noqa: E731
+                                   (x.shape, str(x.dtype), x.tobytes()) if hasattr(x, "tobytes") else x)
+                digest = sha(*[canon(x) for x in rest],
+                             *[(kk, canon(vv)) for kk, vv in sorted(k.items()) if kk != "seed"])
+                _KERNEL_LOG.append({"kind": "kernel", "name": name, "seed": int(seed), "ints": ints, "args": digest})
             r = orig(*a, **k)
             hook = _KERNEL_HOOKS.get(name)
             if hook is not None:
